@@ -271,6 +271,17 @@ impl Drop for VPtr {
     }
 }
 
+/// Serialising the pointer serialises the pointee: its identity, as the memory says at that moment (C20).
+impl serde::Serialize for VPtr {
+    fn serialize<S: serde::Serializer>(&self, serializer: S) -> Result<S::Ok, S::Error> {
+        // user code runs here: other threads may be scheduled before the fields are read
+        sched::yield_at(false, "ser");
+        let (id, alive, tag) = self.read();
+        sched::log(json!({"e": "deref", "t": sched::tid() as i64, "k": "s", "r": 0, "o": id, "alive": alive, "tag": tag}));
+        serializer.serialize_u32(id)
+    }
+}
+
 unsafe impl RefCnt for VPtr {
     type Base = Obj;
     fn into_ptr(me: Self) -> *mut Obj {
